@@ -66,10 +66,16 @@ var c16ExtraVers = map[string][]string{
 }
 var c16ExtraDirs = []string{"./g", "../h", "./i j"}
 
+type c16Carry struct {
+	mf *modfile.File
+	wf *modfile.WorkFile
+}
+
 type c16Round struct {
 	setter     string
 	preCleanup bool
-	preGo      string // go version set on the same structure before the bulk call ("" = none)
+	preGo      string    // go version set on the same structure before the bulk call ("" = none)
+	carry      *c16Carry // non-nil: later rounds go on with the structure of the previous round instead of re-parsing its output
 	reqs       []refmodfile.Req
 	dirs       []string
 }
@@ -176,6 +182,12 @@ func c16Case(c *mon.Ctx, setter, id string) {
 	if r.IntN(4) == 0 {
 		nRounds = 2 + r.IntN(2)
 	}
+	if r.IntN(2) == 0 {
+		carry := &c16Carry{}
+		for i := range rounds {
+			rounds[i].carry = carry
+		}
+	}
 	if !c.Want(id) {
 		return
 	}
@@ -213,10 +225,17 @@ func c16RoundRun(c *mon.Ctx, id string, ef *gen.EditFile, ri int, rd c16Round, m
 	var mf, mf2 *modfile.File
 	var wf, wf2 *modfile.WorkFile
 	var err error
-	if work {
+	switch {
+	case rd.carry != nil && ri > 0 && (rd.carry.mf != nil || rd.carry.wf != nil):
+		mf, wf = rd.carry.mf, rd.carry.wf
+		c.Class("round-on-the-same-structure")
+	case work:
 		wf, err = modfile.ParseWork(name, []byte(text), nil)
-	} else {
+	default:
 		mf, err = modfile.Parse(name, []byte(text), nil)
+	}
+	if rd.carry != nil {
+		rd.carry.mf, rd.carry.wf = mf, wf
 	}
 	if err != nil {
 		c.Inconclusive(fmt.Sprintf("starting file of round %d does not parse (%s): %v\n%s", ri, id, err, text))
